@@ -2644,6 +2644,32 @@ class C13(Oracle):
                 out.append(V(f'{name}/exits-not-distinct', f'{c["params"]} seed={c["seed"]}'))
             if len(beacons) != nb or len({b.color for b in beacons}) != 1 or sum(e.color == beacons[0].color for e in exits) != 1:
                 out.append(V(f'{name}/beacons', f'{c["params"]} seed={c["seed"]}'))
+        if out:
+            return out
+        # an initial state is a value of its own: resets made later (of this and of the other layouts of the
+        # same shape, other seeds) leave it as it is, and a state the caller changed in place does not leak
+        # into what a later reset returns (the same seed gives the same, well-formed, state again)
+        snap = enc_state(s)
+        rr = random.Random(c['seed'])
+        for nm in [name] + rr.sample(['empty', 'keydoor', 'teleport', 'crossing', 'dynamic_obstacles'], 2):
+            c2 = {'name': nm, 'seed': rr.randrange(2**31), 'params': dict(p) if nm == name else {'h': h, 'w': w, **({'n': 1} if nm in ('crossing', 'dynamic_obstacles') else {}), **({'object_type': 'Wall'} if nm == 'crossing' else {})}}
+            try:
+                reset_call(c2)
+            except Exception:
+                continue
+            if enc_state(s) != snap:
+                out.append(V(f'{name}/initial-state-changed-by-a-later-reset', f'{c["params"]} seed={c["seed"]}, then {nm} seed={c2["seed"]}: {snap} -> {enc_state(s)}'))
+                return out
+        free = [q for q in g.area.positions() if not blocks(g[q]) and q != s.agent.position]
+        if free:
+            s.agent.position = rr.choice(free)
+            s.agent.orientation = s.agent.orientation * O.R
+            try:
+                again = reset_call(c)
+                if enc_state(again) != snap:
+                    out.append(V(f'{name}/reset-depends-on-what-was-done-to-an-earlier-initial-state', f'{c["params"]} seed={c["seed"]}: {snap} the first time, {enc_state(again)} after the first state\'s agent was moved in place'))
+            except Exception as e:
+                out.append(V(f'{name}/second-reset-raises', f'{c["params"]} seed={c["seed"]}: {type(e).__name__}: {e}'))
         return out
 
 
@@ -3402,6 +3428,12 @@ class C03(Oracle):
         k = 0
         while True:
             k += 1
+            if k % 11 == 5:
+                # the reward helpers remember things (shortest-path tables, ray fans): the same question about
+                # one world, asked before and after questions about look-alike worlds (the same cells laid out
+                # in another shape, the same shape with another wall) and a crowd of unrelated ones
+                yield {'kind': 'rewardhist', 'pick': rng.randrange(2**31)}
+                continue
             if k % 3 == 0:
                 if k % 4 == 0:
                     # a step that changes an object node in place: a closed door (or a locked one with its
@@ -3485,6 +3517,59 @@ class C03(Oracle):
             pass
         self._no_sharing(out, 'copy', where, s, c)
 
+    def _rewardhist(self, c):
+        from gym_gridverse.envs import reward_functions as rf
+        from gym_gridverse.envs import transition_functions as trf
+        from gym_gridverse.grid_object import Exit
+
+        out = []
+        rr = random.Random(c['pick'])
+        h, w = rr.randint(2, 5), rr.randint(2, 5)
+        n = h * w
+        walls = [rr.random() < 0.3 for _ in range(n)]
+        chain = trf.factory('chain', transition_functions=[trf.factory('move_agent'), trf.factory('turn_agent')])
+
+        def world(hh, ww, bits, ex, ag):
+            cells = {(i // ww, i % ww): 'W' for i in range(hh * ww) if bits[i]}
+            cells.pop(ex, None)
+            cells.pop(ag, None)
+            cells[ex] = 'E0'
+            return gen.mk_state(hh, ww, cells, ag[0], ag[1], rr.choice(gen.ORIENTS))
+
+        # the same row-major cells laid out as h x w and as w x h (and as 1 x n), exit at the same (y, x)
+        m = min(h, w)
+        ex = (rr.randrange(m), rr.randrange(m))
+        worlds = []
+        for hh, ww in ((h, w), (w, h), (1, n), (h, w)):
+            e_ = ex if (hh, ww) != (1, n) else (0, rr.randrange(n))
+            free = [(i // ww, i % ww) for i in range(hh * ww) if (i // ww, i % ww) != e_]
+            ag = rr.choice(free)
+            bits = list(walls)
+            if len(worlds) == 3:
+                bits[rr.randrange(n)] ^= True  # the same shape as the first, one wall different
+            worlds.append(world(hh, ww, bits, e_, ag))
+        f = rf.factory('getting_closer_shortest_path', object_type=Exit, reward_closer=1.0, reward_further=-1.0)
+        a = ACTIONS[rr.randrange(4)]
+
+        def ask(st):
+            nxt = trf.transition_with_copy(chain, st, a, rng=None)
+            return f(st, a, nxt), lit_distance_reward('path', st, nxt, Exit, 1.0, -1.0), enc_state(st)
+
+        try:
+            first = [ask(st) for st in worlds]
+            for _ in range(14):  # a crowd of unrelated questions
+                st = gen_episode_world(rr)
+                if st is not None:
+                    ask(st)
+            again = [ask(st) for st in reversed(worlds)][::-1]
+        except Exception as e:
+            return [V('history/reward-raises', f'{type(e).__name__}: {e} (pick {c["pick"]})')]
+        for (r1, e1, w1), (r2, _, _) in zip(first, again):
+            if r1 != e1 or r2 != e1:
+                out.append(V('history/reward-answer-depends-on-earlier-questions', f'getting_closer_shortest_path on {w1} action {a.name}: {r1} the first time, {r2} later, the triple on its own gives {e1} (asked among look-alike worlds {[x[2] for x in first]})'))
+                break
+        return out
+
     def check(self, c):
         import numpy as np
         from harness.recrng import ScriptRng
@@ -3492,6 +3577,8 @@ class C03(Oracle):
         from gym_gridverse.envs import transition_functions as trf
 
         out = []
+        if c['kind'] == 'rewardhist':
+            return self._rewardhist(c)
         if c['kind'] == 'heapstep':
             s = state_from_str(c['state'])
             a = ACTIONS[c['action']]
